@@ -104,9 +104,94 @@ async fn reserved(child: &str, force_unverified: bool) {
     }
 }
 
+async fn cross() {
+    println!("== cross: create branch from (a, v) through a handle on main / on another branch");
+    let dir = tempfile::tempdir().unwrap();
+    let uri = dir.path().join("ds").to_string_lossy().to_string();
+    let mut ds = Dataset::write(reader(vec![1, 2]), &uri, None).await.unwrap();
+    ds.append(reader(vec![100]), None).await.unwrap(); // main v2 = [1,2,100]
+    let mut a = ds.create_branch("a", 1u64, None).await.unwrap();
+    a.append(reader(vec![3]), None).await.unwrap(); // a v2 = [1,2,3]
+    println!("  main v2 {:?}; a v{} {:?}", scan_ids(&ds).await, a.version().version, scan_ids(&a).await);
+    match ds.create_branch("b", ("a", 2u64), None).await {
+        Ok(b) => println!("  b := (a,2) via main handle: v{} {:?} (expected [1,2,3])", b.version().version, scan_ids(&b).await),
+        Err(e) => println!("  create b failed: {e}"),
+    }
+    match a.create_branch("c", (None::<String>, Some(2u64)), None).await {
+        Ok(b) => println!("  c := (main,2) via handle on a: v{} {:?} (expected [1,2,100])", b.version().version, scan_ids(&b).await),
+        Err(e) => println!("  create c failed: {e}"),
+    }
+    let cl = dir.path().join("clone").to_string_lossy().to_string();
+    match ds.shallow_clone(&cl, ("a", 2u64), None).await {
+        Ok(b) => println!("  clone := (a,2) via main handle: v{} {:?} (expected [1,2,3])", b.version().version, scan_ids(&b).await),
+        Err(e) => println!("  clone failed: {e}"),
+    }
+    println!("  branches: {:?}", ds.list_branches().await.map(|m| m.into_iter().map(|(k, v)| (k, v.parent_branch, v.parent_version)).collect::<Vec<_>>()).map_err(|e| e.to_string()));
+}
+
+async fn dependents() {
+    println!("== dependents: x from main@1, write on x, c from (x,2) via x handle, delete x");
+    let dir = tempfile::tempdir().unwrap();
+    let uri = dir.path().join("ds").to_string_lossy().to_string();
+    let mut ds = Dataset::write(reader(vec![1, 2]), &uri, None).await.unwrap();
+    let mut x = ds.create_branch("x", 1u64, None).await.unwrap();
+    x.append(reader(vec![3]), None).await.unwrap();
+    let c = x.create_branch("c", ("x", 2u64), None).await.unwrap();
+    println!("  c reads {:?}", scan_ids(&c).await);
+    let cl = dir.path().join("clone").to_string_lossy().to_string();
+    let k = x.shallow_clone(&cl, ("x", 2u64), None).await.unwrap();
+    println!("  clone reads {:?}", scan_ids(&k).await);
+    println!("  delete x: {:?}", ds.delete_branch("x").await.map_err(|e| e.to_string()));
+    match ds.checkout_branch("c").await {
+        Ok(b) => println!("  c after delete x: {:?}", scan_ids(&b).await),
+        Err(e) => println!("  c unreadable: {}", e),
+    }
+    match Dataset::open(&cl).await {
+        Ok(b) => println!("  clone after delete x: {:?}", scan_ids(&b).await),
+        Err(e) => println!("  clone unreadable: {}", e),
+    }
+    println!("  create 'a/.': {:?}", ds.create_branch("a/.", 1u64, None).await.map(|_| ()).map_err(|e| e.to_string().chars().take(120).collect::<String>()));
+    println!("  create '.': {:?}", ds.create_branch(".", 1u64, None).await.map(|_| ()).map_err(|e| e.to_string().chars().take(120).collect::<String>()));
+}
+
+async fn stale_commit() {
+    use lance::dataset::{CommitBuilder, InsertBuilder};
+    println!("== stale two-phase commit on a branch: uncommitted append at b@v2, b moves to v3, commit to b's uri");
+    let dir = tempfile::tempdir().unwrap();
+    let uri = dir.path().join("ds").to_string_lossy().to_string();
+    let mut ds = Dataset::write(reader(vec![1, 2]), &uri, None).await.unwrap();
+    ds.append(reader(vec![100]), None).await.unwrap(); // main v2
+    ds.append(reader(vec![101]), None).await.unwrap(); // main v3
+    let mut b = ds.create_branch("b", 1u64, None).await.unwrap();
+    b.append(reader(vec![3]), None).await.unwrap(); // b v2
+    let stale = Arc::new(b.clone());
+    let (_, batch) = batch(vec![50]);
+    let txn = InsertBuilder::new(stale.clone()).with_params(&WriteParams { mode: WriteMode::Append, ..Default::default() }).execute_uncommitted(vec![batch]).await.unwrap();
+    println!("  txn read_version {}", txn.read_version);
+    b.append(reader(vec![4]), None).await.unwrap(); // b v3
+    let files_before = ls(&dir.path().join("ds"));
+    let buri = b.uri().to_string();
+    let r = CommitBuilder::new(buri.as_str()).execute(txn).await;
+    match &r {
+        Ok(d) => println!("  commit returned dataset uri {} branch {:?} version {} rows {:?}", d.uri(), d.manifest().branch, d.version().version, scan_ids(d).await),
+        Err(e) => println!("  commit failed: {}", e.to_string().chars().take(200).collect::<String>()),
+    }
+    let files_after = ls(&dir.path().join("ds"));
+    for f in files_after.iter().filter(|f| !files_before.contains(f)) {
+        println!("  new file: {f}");
+    }
+    let main = Dataset::open(&uri).await.unwrap();
+    println!("  main latest v{} rows {:?}", main.version().version, scan_ids(&main).await);
+    let bb = main.checkout_branch("b").await.unwrap();
+    println!("  b latest v{} rows {:?}", bb.version().version, scan_ids(&bb).await);
+}
+
 pub fn run(_args: &Args) -> i32 {
     let rt = tokio::runtime::Builder::new_multi_thread().worker_threads(4).enable_all().build().unwrap();
     rt.block_on(async {
+        cross().await;
+        stale_commit().await;
+        dependents().await;
         f7().await;
         reserved("data", false).await;
         reserved("_versions", false).await;
